@@ -976,6 +976,33 @@ func (e *e4Engine) bounds(in ssa.Instruction, x ssa.Value, idx, lo, hi ssa.Value
 			}
 		}
 	}
+	// D12: io contract — x[:n] where n is the count returned by Read/ReadFrom into the same x (0 <= n <= len(x))
+	if kind == "slice" && lo == nil && hi != nil {
+		if ex, ok := hi.(*ssa.Extract); ok && ex.Index == 0 {
+			if cl, ok := ex.Tuple.(*ssa.Call); ok {
+				cc := cl.Common()
+				name := ""
+				var buf ssa.Value
+				if cc.IsInvoke() {
+					name = cc.Method.Name()
+					if len(cc.Args) > 0 {
+						buf = cc.Args[0]
+					}
+				} else if f := cc.StaticCallee(); f != nil && f.Signature.Recv() != nil && !inModule(f) && len(cc.Args) > 1 {
+					name = f.Name()
+					buf = cc.Args[1]
+				}
+				if (name == "Read" || name == "ReadFrom") && buf != nil && (buf == x || sx.Of(buf).String() == xs) {
+					if bt, ok := buf.Type().Underlying().(*types.Slice); ok {
+						if eb, ok := bt.Elem().Underlying().(*types.Basic); ok && eb.Kind() == types.Uint8 {
+							e.close(in, key, "D12 io contract: count returned by "+name+" into the same buffer", "", false)
+							return
+						}
+					}
+				}
+			}
+		}
+	}
 	// D10: relational prover
 	pr := e.prover()
 	if kind == "index" {
